@@ -23,6 +23,9 @@ RUNS = {
         {"name": "K8-mode-table", "mode": "kmode", "budget": (2000, 50000), "nontrivial": r"back=", "keyfn": "generic", "exhaustive": True},
         {"name": "K8-mapper-concurrent", "mode": "kmapc", "budget": (30, 600), "nontrivial": r".", "keyfn": "generic"},
     ],
+    "C17": [
+        {"name": "K3-segmentation", "mode": "k3", "budget": (120, 3000), "nontrivial": r"recv\d+=(msg|proto)", "keyfn": "generic"},
+    ],
     "C02": [
         {"name": "K2-framing", "mode": "k2", "budget": (1500, 40000), "nontrivial": r"recv\d+=(msg|proto)", "keyfn": "k2"},
     ],
@@ -31,6 +34,23 @@ RUNS = {
 NOT_YET = {}
 
 PROPS = {
+    "C17": {
+        "level_text": "Proof (generic io.Reader path): reading n bytes through any segmentation into non-empty chunks, EOF attached to the last "
+                      "chunk or separate, yields the stream's first n bytes (induction over the read loop); hence recv over a segmented reader has "
+                      "the same outcome and leaves the same unread bytes as recv1 on the byte string, the whole outcome sequence of the receive loop "
+                      "depends only on the bytes (induction over calls), and a stream ending mid-frame is a connection error under every segmentation. "
+                      "Partial: the vectorised recvmsg path is modelled executably (readVec/scatter) and validated by the socketpair correspondence "
+                      "and a per-case model cross-check; its theorem (VecPathSpec) is stated but not proved.",
+        "level_note": "Trusted: Lean kernel; Transport/Seg.lean hand-written model of vecnet.Buffers.ReadFrom (generic, after the D11 fix), "
+                      "io.ReadAtLeast and io.Copy/LimitReader; real kernel segmentation on the socket path is observed, not modelled. "
+                      "I7: deliveries are non-empty chunks; (0, nil) reads excluded.",
+        "rule": "K3: streams of 1..3 frames (1/4 mutated, 1/6 ending mid-frame) delivered unsegmented, at every single split point and byte by "
+                "byte (streams <= 80 bytes), and under random cuts incl. inside the header, each with EOF attached or separate, through an "
+                "io.Reader chunker; one segmentation per stream also through a real unix socketpair with paced writes (vectorised path). "
+                "Expected = outcomes of the unsegmented byte string under the protocol table. Non-trivial: a message or protocol error was produced.",
+        "assumptions": ["I7 delivery modes", "socket path: EOF arrives separately (close after the last write)"],
+        "trusted_base": ["Transport/Seg.lean: hand-written model of the two vecnet read paths"],
+    },
     "C20": {
         "level_text": "Proof: encodeLikely is injective and < 2^63 (omega over the div/mod form); the fallback table of localToQid keeps an invariant "
                       "(values distinct, > 2^63, keys distinct) under every lookup, from which stability (a pair keeps its path after any later "
